@@ -197,10 +197,11 @@ def step (t : List String) : Option String :=
       let sb ← sb.toNat?
       let s := sbxOf sb
       let a ← if tgt == "heap" ∨ tgt == "stack" then some 1 else target sb tgt
-      if ¬ s.region.contains a then pure "abort" else
       match how with
-      | "accept" | "assign" | "assignfn" => pure s!"ok {showAddr 2 a}"
-      | "assignvol" => pure s!"ok rep={toGuest s a}"
+      | "accept" | "assign" | "assignfn" =>
+          (match acceptPointer s a with | none => pure "abort" | some v => pure s!"ok {showAddr 2 v}")
+      | "assignvol" =>
+          (match acceptPointerVol s a with | none => pure "abort" | some v => pure s!"ok rep={v}")
       | _ => none
   | "chain" :: sb :: start :: tag :: steps => do
       let sb ← sb.toNat?
